@@ -57,6 +57,19 @@ def host_check(R, module, res, calls, name):
         R.maximum("max_call_depth", vm.depth)
 
 
+def imported_variant(R, obs, name, module, calls, family):
+    """the same program with its callees in a separately compiled library that the callers import: binding, isolation and
+    the chosen overload must not depend on where the callee was compiled"""
+    sp = diff.split_for_import(module)
+    if sp is None:
+        R.count("not_splittable")
+        return
+    res = diff.check_program(R, obs, name + "/imported", module, calls, None, family, extra_events=FRAME_EVENTS, split=sp)
+    R.count("imported_variants")
+    if res["runnable"] and res["bad"] == 0:
+        R.nontriv("imported", res["source"])
+
+
 def run_shard(tier, seed, shard, n, R):
     obs = vmobs.Observer(frames=True)
     cases = gcalls.directed_cases()
@@ -68,6 +81,7 @@ def run_shard(tier, seed, shard, n, R):
                                  extra_events=FRAME_EVENTS)
         host_check(R, module, res, calls, name)
         R.count("directed_cases")
+        imported_variant(R, obs, name, module, calls, (name.split(":")[0] if not name.startswith("byvalue") else name) + ":imported")
         if i % 23 == shard:
             R.sample({"case": name, "source": print_module(module)})
     for j in range(BUDGET[tier]):
@@ -87,6 +101,8 @@ def run_shard(tier, seed, shard, n, R):
                                  extra_events=FRAME_EVENTS)
         host_check(R, module, res, calls, "random:%d" % s)
         R.count("random_programs")
+        if kind == 0:
+            imported_variant(R, obs, "random:%d" % s, module, calls, "random:callgraph:imported")
         if j == 0:
             R.sample({"case": "random:%d" % s, "source": print_module(module)})
     R.count("observer_total_calls", obs.total_calls)
